@@ -71,6 +71,36 @@ CHECKS = {
             'Valid requests of every command corrupted in one or two fields in several daemon states; an error reply '
             'must leave snapshot (watchers, options, statuses, pids, stats keys, hooks) and kernel ledger unchanged.',
             'Only synchronous error replies are judged; ok replies are not this property.'),
+    'C14': ('SIM', 'fault_enumeration',
+            'runtime monitoring with exhaustive enumeration of hook outcomes: scripted hooks that count their own '
+            'invocations; status, kernel process table, signal ledger and hook_success/hook_failure events as oracles',
+            'All 1296 outcome/ignore assignments of the four start-phase hooks x obedient/stubborn worker x '
+            'numprocesses 1/2, all 36 (before_stop, after_stop) assignments x stop/restart/rm/quit, all 36 '
+            '(before_signal, after_signal) assignments x six signalling requests; gating, end state, SIGKILL '
+            'exemption and the call<->event bijection are checked on every run. Exhaustive over the stated space.',
+            'A raising before_signal without ignore flag is ambiguous and only recorded.'),
+    'C15': ('SIM', 'exploration',
+            'runtime monitoring: online reference dict of watcher names updated from the replies, compared with '
+            'list/status/stats/numwatchers after every step; real config file for reloadconfig',
+            'Random add/rm/start/stop/reloadconfig/status/list sequences over a name pool with case variants, empty '
+            'and unusual names; every view must equal the reference, names unique ignoring case, other-case requests '
+            'reach the watcher, removed watchers vanish with their workers, add ok implies presence.',
+            'Glob characters in names are addressed with match=simple; config files never define case-colliding names.'),
+    'C18': ('SIM', 'exploration',
+            'runtime monitoring: kernel signal ledger (target pid, number) vs watcher membership and descendants at '
+            'that instant; full designation table pushed through every entry point; audit hook blocks and reports '
+            'any real os.kill',
+            'Random signal/kill requests addressing own/foreign/dead pids, children and grandchildren in '
+            'active/stopped/stopping watchers; every designation of every signal name/number through signal, kill, '
+            'set, add and config; clear-invalid near misses must be refused without a signal.',
+            'Floats, booleans, signed/non-ASCII numeric strings, whitespace and out-of-range numbers are ambiguous '
+            'and never decide.'),
+    'C19': ('SIM', 'exploration',
+            'runtime monitoring: kernel spawn ledger with exact virtual timestamps checked for non-interleaving, '
+            'priority order and warmup pacing',
+            'Random watcher sets with priority ties, numprocesses 0-3, warmups and autostart flags; daemon start, '
+            'start/restart of all, by glob and by regex; deaths injected during the sequence.',
+            'Virtual clock; no periodic check runs during a start sequence.'),
 }
 
 NOT_YET = {
